@@ -64,6 +64,9 @@ def scenarios_of(mod, tier):
     return scns
 
 
+EXEC_WALL_LIMIT = 5          # seconds of wall time for ONE execution (they take milliseconds)
+_HANGS = {}                   # scenario description -> real blocking calls seen by this worker process
+
 # worker side
 _MOD = None
 _SCN = None
@@ -80,10 +83,35 @@ def _safe_run(scn):
     mod = _MOD
 
     def run(ch):
+        from vt.watchdog import limit, Hang
+        key = json.dumps(scn.describe(), sort_keys=True, default=repr)
+        if _HANGS.get(key, 0) >= 2:
+            # this scenario has already shown (twice, in this worker) that the daemon blocks for real: its remaining
+            # executions are not worth 10 s of wall time each; the violation is on record
+            res = X.Result()
+            res.aborted = 'skipped: the scenario already blocked for real'
+            return res
         try:
-            return mod.run(scn, ch)
+            with limit(EXEC_WALL_LIMIT):
+                return mod.run(scn, ch)
         except X.ReplayDivergence:
             raise
+        except Hang as h:
+            # the code under test made a real blocking call (the virtual clock cannot see it): for the daemon this is an
+            # event loop that stands still - reported as a violation of its own
+            import vt.world as VW
+            _HANGS[key] = _HANGS.get(key, 0) + 1
+            res = X.Result()
+            res.check('HARNESS.real_blocking_call', False,
+                      'the execution did not return within %ds of wall time: a real blocking system call inside the daemon code at %s'
+                      % (EXEC_WALL_LIMIT, h.where), where='blocked-for-real@' + (h.where.split(' <- ')[0] if h.where else '?'))
+            res.aborted = 'real blocking call'
+            try:
+                if VW.CURRENT is not None:
+                    VW.CURRENT.close()
+            except BaseException:
+                pass
+            return res
     return run
 
 
@@ -142,7 +170,7 @@ def _w_replay(args):
     idx, choices, ctx = args
     scn = _SCN[idx]
     ch = X.Chooser(choices, None, ctx)
-    res = _MOD.run(scn, ch)
+    res = _safe_run(scn)(ch)
     return [(c, d, w) for (c, d, w) in res.violations], res.aborted, ch.chosen_labels(), res.info.get('trace')
 
 
@@ -316,7 +344,9 @@ def confirm_and_report(mod, tier, stats, scns, prop_id):
             if v['clause'].startswith('HARNESS.'):
                 path = F.write_replay(prop_id, v)
                 lines.append('VIOLATION property=%s replay=%s' % (prop_id, path))
-                lines.append('  harness error: %s' % v['detail'][:500])
+                lines.append('  %s: %s' % ('the daemon code blocked for real' if v['clause'] == 'HARNESS.real_blocking_call'
+                                           else 'harness error', v['detail'][:500]))
+                lines.append('  scenario=%s deviations=%s' % (v.get('scenario'), v.get('deviations')))
                 new += 1
                 continue
             idx = name_to_idx.get(json.dumps(v['scenario'], sort_keys=True))
